@@ -23,7 +23,6 @@
 package main
 
 import (
-	"bytes"
 	"context"
 	"errors"
 	"fmt"
@@ -464,7 +463,6 @@ func execSess(op string) string {
 	}
 }
 
-var _ = bytes.Equal
 
 // ---------- generation ----------
 
